@@ -395,6 +395,20 @@ def spec (S : Solver α) (env : String → α) : M α → α → α
   | off m, x => m.spec S env (x - env m.offsetName)
   | inv m lo hi interp, x => S interp (fun f => m.spec S env f) lo hi x
 
+/-- the validation written by NAME: every part is checked on its own parameters, left part first; an inverse
+    then checks its limits -/
+def checkSpec (env : String → α) : M α → Option Err
+  | base k n => k.check ((k.args.map (formatName n)).map env)
+  | add l r =>
+      match l.checkSpec env with
+      | some e => some e
+      | none => r.checkSpec env
+  | off m => m.checkSpec env
+  | inv m lo hi _ =>
+      match m.checkSpec env with
+      | some e => some e
+      | none => limitsEmpty lo hi
+
 def branches : M α → α → List α → List Bool
   | base k _, x, v => k.branch x v
   | add l r, x, v =>
